@@ -228,6 +228,10 @@ def gen_scenario(seed, opts):
                 deco += [["-lm"], ["-Wl,-x,-y"], ["-L."], ["-L", "d1"], ["-s"], ["-Xlinker", "--foo"], ["-static"], ["-shared"]]
             for _ in range(r.range(1, 2)):
                 argv += r.pick(deco)
+        if r.below(40) == 0:
+            # options other drivers have and this one may grow: refused today (an early, clean failure), but if accepted they
+            # must not change what a failing step means
+            argv.append(r.pick(["-pipe", "-save-temps", "-v", "-pthread", "-nostdlib", "-pedantic", "-Werror", "-r", "-rdynamic", "-march=native", "--verbose", "-time"]))
         if xlang:
             argv += r.pick([["-x", xlang], ["-x" + xlang]])     # in front of the inputs (positional and global readings agree)
         names = [n for n, _ in inputs]
@@ -261,6 +265,8 @@ def gen_scenario(seed, opts):
         inv = {"argv": argv, "stdout": so_kind, "stderr": "devfull" if r.below(30) == 0 else "file", "faults": []}
         if so_kind == "file" and r.below(25) == 0:
             inv["stdin"] = "closed"  # descriptor 0 is free: the first open() of every process returns 0
+        if r.below(30) == 0:
+            inv["sigchld"] = "ignored"   # inherited from a nohup-style parent: the kernel reaps the children itself and wait() fails with ECHILD
         invs.append(inv)
     # concurrent invocations have disjoint requested outputs (two commands told to write the same file
     # interfere legitimately); everything else -- directory, /tmp, inputs -- is shared on purpose
@@ -941,12 +947,16 @@ def close_stdin():
     os.close(0)
 
 
-def pre_exec(inv):
-    if inv["stdout"] == "closed":
-        return close_stdout
-    if inv.get("stdin") == "closed":
-        return close_stdin
-    return None
+def pre_exec(inv, reference=False):
+    def f():
+        if inv["stdout"] == "closed":
+            os.close(1)
+        elif inv.get("stdin") == "closed":
+            os.close(0)
+        if inv.get("sigchld") == "ignored" and not reference:
+            import signal
+            signal.signal(signal.SIGCHLD, signal.SIG_IGN)
+    return f
 
 
 def snapshot(d, texts=None):
@@ -989,7 +999,7 @@ def reference_run(env, wdir, scn, i, cache):
     with so, open(os.path.join(wdir, "ref.stderr"), "wb") as se:
         try:
             rc = subprocess.run([env["cc"]] + inv["argv"], cwd=mach.cwd, env=e, stdin=subprocess.DEVNULL, stdout=so, stderr=se, timeout=60,
-                                preexec_fn=pre_exec(inv)).returncode
+                                preexec_fn=pre_exec(inv, reference=True)).returncode
         except subprocess.TimeoutExpired:
             raise Inconclusive("reference run timed out")
     after = snapshot(mach.cwd)
@@ -1179,7 +1189,10 @@ def own_unit_check(scn, inv, m, i, res):
                 rules.append((name, res["after_text"][d]))
     for name, text in rules:
         flat = text.replace("\\\n", " ").replace("\\ ", " ").replace("$$", "$").replace("\\#", "#")
-        if os.path.basename(name) not in flat:
+        # (-MMD leaves out whatever lies under an include directory, and chibicc counts -I directories: `-MMD -I. ./x.c` writes a rule
+        # without x.c. What -MMD lists is a matter of dependency output, not of which unit a file belongs to, so only -MD / -M rules
+        # are required to name their source; no rule may name another unit's.)
+        if os.path.basename(name) not in flat and "-MMD" not in inv["argv"]:
             v.append(("O4-output-has-wrong-content", i, "exit 0 but the dependency rule written for %s does not mention it: %s" % (name, flat[:200])))
         others = [n for n in cs if os.path.basename(n) != os.path.basename(name) and os.path.basename(n) not in os.path.basename(name)]
         for n in others:
@@ -1474,7 +1487,7 @@ def describe(scn):
     for n in sorted(scn["pre"]):
         out.append("  pre-existing %s" % n)
     for i, inv in enumerate(scn["invocations"]):
-        out.append("  inv%d: chibicc %s%s" % (i, " ".join(inv["argv"]), (" > /dev/full" if inv["stdout"] == "devfull" else " >&-" if inv["stdout"] == "closed" else "") + (" <&-" if inv.get("stdin") == "closed" else "") + (" 2> /dev/full" if inv.get("stderr") == "devfull" else "")))
+        out.append("  inv%d: chibicc %s%s" % (i, " ".join(inv["argv"]), (" > /dev/full" if inv["stdout"] == "devfull" else " >&-" if inv["stdout"] == "closed" else "") + (" <&-" if inv.get("stdin") == "closed" else "") + (" [SIGCHLD ignored]" if inv.get("sigchld") == "ignored" else "") + (" 2> /dev/full" if inv.get("stderr") == "devfull" else "")))
         for f in inv["faults"]:
             out.append("        fault: %s" % json.dumps(f, sort_keys=True))
     s = scn.get("sched", {})
